@@ -239,6 +239,13 @@ func main() {
 				bodyCoq = "(VStruct [])"
 			}
 			sb, serr := ct.SerializeSCTSignatureInput(sct, entry)
+			// metamorphic direct oracle: the signed bytes depend on the SCT's timestamp and extensions
+			// and on the entry's type and body only - not on the entry's own timestamp / extensions
+			sb0, serr0 := ct.SerializeSCTSignatureInput(sct, ct.LogEntry{Leaf: leaf})
+			metaOK := (serr == nil) == (serr0 == nil) || entry.Leaf.TimestampedEntry.EntryType != leaf.TimestampedEntry.EntryType
+			if serr == nil && serr0 == nil && entry.Leaf.TimestampedEntry.EntryType == leaf.TimestampedEntry.EntryType && string(sb) != string(sb0) {
+				metaOK = false
+			}
 			so := "ErrStruct"
 			if serr == nil {
 				so = "Ok " + lib.Bytes(sb)
@@ -247,7 +254,7 @@ func main() {
 				Coq:    fmt.Sprintf("CSctInput %s %s %s %s %s (%s)", lib.Nn(uint64(version)), lib.Nn(ts), lib.Nn(etype), bodyCoq, lib.Bytes(ext), so),
 				Input:  map[string]interface{}{"op": "sct-siginput", "version": version, "etype": etype},
 				Impl:   map[string]interface{}{"ok": serr == nil, "len": len(sb)},
-				PropOK: (serr == nil) == (version == ct.V1 && etype <= 1), Note: "signature input produced for unknown version / entry type (or refused for a known one)",
+				PropOK: metaOK && (serr == nil) == (version == ct.V1 && etype <= 1), Note: "signature input produced for unknown version / entry type (or refused for a known one), or it depends on unsigned fields of the entry",
 				Tags:   []string{fmt.Sprintf("sct-input:ok=%v", serr == nil)},
 			})
 			if serr == nil && etype <= 1 && entry.Leaf.TimestampedEntry == &vte {
